@@ -37,6 +37,9 @@ def ws2dpgu(y, lmda, nodata, p, out):
         n = np.sum(w)
 
         if n > 1:
+            # missing cells carry no weight: keep their placeholder (possibly NaN / inf,
+            # for which 0 * y is not 0) out of the arithmetic
+            y = np.where(w == 0, 0.0, y)
             p1 = 1 - p
             z = np.zeros(m)
             znew = np.zeros(m)
